@@ -29,6 +29,15 @@ impl Rng {
             *self.pick(&[0x01u8, 0x02, 0x03, 0x04, 0x05, 0x06, 0x07, 0x08, 0x0A, 0x0B])
         }
     }
+    /// a unit / slave id: every fourth one from the borders of the address classes (broadcast 0,
+    /// single devices 1…247, reserved 248…255 with the TCP default 255)
+    pub fn unit(&mut self) -> u8 {
+        if self.chance(1, 4) {
+            *self.pick(&[0x00u8, 0x01, 0xF7, 0xF8, 0xFE, 0xFF])
+        } else {
+            self.u8()
+        }
+    }
     pub fn u8(&mut self) -> u8 {
         self.next() as u8
     }
